@@ -58,6 +58,31 @@ def confirm(prop, name, diff, demo, crate_dir, wt=None):
         if own:
             sh("git -C %s worktree remove --force %s" % (REPO, wt))
 
+def prun(seed_dir, props=None, tier="quick"):
+    """like run, but on a scratch copy of /repo (VERIF_REPO) with evidence redirected: safe to run in parallel
+    and while /repo is being used by other checks"""
+    import tempfile
+    d = os.path.join(VERIF, "seeded", seed_dir)
+    meta = json.load(open(os.path.join(d, "meta.json")))
+    props = props or [meta["property"]]
+    base = tempfile.mkdtemp(prefix="verif-seed-%s-" % seed_dir, dir="/var/tmp")
+    res = {}
+    try:
+        rc, out = sh("rsync -a --exclude /target --exclude /.git %s/ %s/repo/" % (REPO, base))
+        rc, out = sh("git init -q . && git apply %s" % os.path.join(d, "patch.diff"), cwd=base + "/repo")
+        if rc:
+            return {"error": "patch does not apply: " + out}
+        shutil.rmtree(base + "/repo/.git", ignore_errors=True)
+        for p in props:
+            t0 = time.time()
+            rc, out = sh([os.path.join(VERIF, "check"), p, "--tier", tier], cwd=VERIF, timeout=7200,
+                         env={"VERIF_REPO": base + "/repo", "VERIF_OUT_DIR": base + "/out"})
+            lines = [l for l in out.splitlines() if l.startswith(("VIOLATION", "KNOWN-FINDING", "UNDECIDED", "OK", "  - "))]
+            res[p] = {"exit": rc, "lines": [l[:300] for l in lines][:12], "wall_s": round(time.time() - t0, 1)}
+    finally:
+        shutil.rmtree(base, ignore_errors=True)
+    return res
+
 def run(seed_dir, props=None):
     d = os.path.join(VERIF, "seeded", seed_dir)
     meta = json.load(open(os.path.join(d, "meta.json")))
@@ -86,6 +111,17 @@ if __name__ == "__main__":
         print(json.dumps(confirm(*sys.argv[2:]), indent=1))
     elif sys.argv[1] == "run":
         print(json.dumps(run(sys.argv[2], sys.argv[3:] or None), indent=1))
+    elif sys.argv[1] == "prun":
+        print(sys.argv[2], json.dumps(prun(sys.argv[2], sys.argv[3:] or None)), flush=True)
+    elif sys.argv[1] == "pall":
+        # every seeded change on its own scratch copy, N at a time
+        import concurrent.futures as cf
+        n = int(os.environ.get("SEED_JOBS", "3"))
+        sds = [sd for sd in sorted(os.listdir(os.path.join(VERIF, "seeded"))) if os.path.exists(os.path.join(VERIF, "seeded", sd, "meta.json"))]
+        sds = [sd for sd in sds if not sys.argv[2:] or any(sd.startswith(a) for a in sys.argv[2:])]
+        with cf.ThreadPoolExecutor(n) as ex:
+            for sd, r in zip(sds, ex.map(prun, sds)):
+                print(sd, json.dumps(r), flush=True)
     elif sys.argv[1] == "all":
         for sd in sorted(os.listdir(os.path.join(VERIF, "seeded"))):
             if os.path.exists(os.path.join(VERIF, "seeded", sd, "meta.json")):
